@@ -34,23 +34,7 @@ def cases(draw, tier):
                          max_edges=3, max_nodes=5)
     spec = draw(gen_fgg.patterned(base, weights=(0.0, 0.25, 0.5, 1.0, 2.0), p_bcast=0.0) if draw(st.booleans()) else base)
     if spec['rules'] and draw(st.integers(0, 3)) == 0:
-        # inject a *dead* rule (sum-product zero because it uses an unproductive nonterminal of the same SCC) in front of the
-        # productive rules of some nonterminal X:   X -> D ... (first rule of X),   D -> X D (D's only rule)
-        X = draw(st.sampled_from(spec['rules']))['lhs']
-        tx = list(spec['nonterminals'][X])
-        spec['nonterminals']['D'] = []
-        deadX = {'lhs': X, 'nodes': list(tx), 'ext': list(range(len(tx))), 'edges': [{'label': 'D', 'att': []}]}
-        if spec['terminals'] and draw(st.booleans()):
-            t = draw(st.sampled_from(sorted(spec['terminals'])))
-            nodes = list(tx); att = []
-            for nl in spec['terminals'][t]['type']:
-                c = [j for j, l in enumerate(nodes) if l == nl]
-                if c: att.append(c[0])
-                else: nodes.append(nl); att.append(len(nodes) - 1)
-            deadX['nodes'] = nodes; deadX['edges'].append({'label': t, 'att': att})
-        deadD = {'lhs': 'D', 'nodes': list(tx), 'ext': [], 'edges': [{'label': X, 'att': list(range(len(tx)))}, {'label': 'D', 'att': []}]}
-        first = next(i for i, r in enumerate(spec['rules']) if r['lhs'] == X)
-        spec['rules'] = spec['rules'][:first] + [deadX] + spec['rules'][first:] + [deadD]
+        gen_fgg.inject_dead_rule(draw, spec)
     n = 3 if tier == 'quick' else 6
     configs = [[draw(st.sampled_from(KINDS)), draw(st.sampled_from(METHODS)), draw(st.sampled_from(['leaf', 'requires_grad_']))] for _ in range(n)]
     ncot = 1
